@@ -112,6 +112,12 @@ func compileStmts(ctx *blockCtx, body []ast.Stmt) {
 		if v, ok := stmt.(*ast.LabeledStmt); ok {
 			expr := v.Label
 			ctx.cb.NewLabel(expr.Pos(), expr.Name)
+			for { // a statement may carry several labels (L: M: stmt)
+				if v, ok = v.Stmt.(*ast.LabeledStmt); !ok {
+					break
+				}
+				ctx.cb.NewLabel(v.Label.Pos(), v.Label.Name)
+			}
 		}
 	}
 	for _, stmt := range body {
